@@ -170,6 +170,22 @@ Section Retry.
     apply orb_false_iff in Hstop. destruct Hstop as [_ Hb]. apply N.leb_gt in Hb.
     rewrite IH by lia. reflexivity.
   Qed.
+
+  (* a run that did not run out of fuel is the run for every larger fuel: the correspondence may
+     evaluate a huge budget (u32::MAX) with fuel = script length + 2 and treat Diverge as a
+     disagreement *)
+  Lemma retry_loop_enough_fuel : forall fuel fuel' attempt delay idx,
+      run_out (retry_loop c op fuel attempt delay idx) <> Diverge ->
+      (fuel <= fuel')%nat ->
+      retry_loop c op fuel' attempt delay idx = retry_loop c op fuel attempt delay idx.
+  Proof.
+    induction fuel as [|f IH]; intros fuel' attempt delay idx Hnd Hle.
+    - cbn in Hnd. contradiction.
+    - destruct fuel' as [|f']; [lia|]. cbn [retry_loop] in *.
+      destruct (op idx) as [v|k m]; [reflexivity|].
+      destruct (negb (transient k) || (max_attempts c <=? attempt + 1)%N); [reflexivity|].
+      cbn [run_out] in Hnd. rewrite (IH f') by (assumption || lia). reflexivity.
+  Qed.
 End Retry.
 
 Arguments retry_spec {X M}.
